@@ -32,6 +32,10 @@ type ake struct {
 	state authState
 	keys  keyManagementContext
 
+	// ourCommitPending is set when our D-H Commit won a collision and was sent again:
+	// the conversation is still waiting for the D-H Key that answers it
+	ourCommitPending bool
+
 	lastStateChange time.Time
 }
 
